@@ -8,6 +8,15 @@ BASE = ("go/types + go/ssa (x/tools v0.29.0) faithful IR; stdlib contracts as do
         "(DESIGN.md section 3); caller-supplied io.Reader/io.Writer obey their contracts")
 
 CHECKS = {
+ "C15": dict(level="other", ref="§4 C15",
+   text="The structural part only: all radix/mask/bound/continuation constants of the encoder and of both decoders are extracted from the SSA form (normalising <<7, *128, %128, &127), compared with each other and with MQTT's 7-bit groups and 4-byte maximum; the two decoders agree on update, guard and termination test; the encoder sets the continuation bit exactly when the quotient is non-zero and leaves exactly when it is zero; both decoders keep the size guard on every cycle and only the no-continuation exit reaches success; the streaming decoder consumes one byte per iteration; the in-memory path advances by the encoder's dry-run width inside the reader's bounds check. The numeric bijection over 2^28 values and exact decoded values are NOT decided.",
+   technique="static analysis: constant extraction and loop-shape matching on go/ssa, sibling cross-check"),
+ "C16": dict(level="other", ref="§4 C16",
+   text="The dispatch is a finite structure: the comparison chain on (first byte & 0xF0) is extracted with its constants and arms and compared with the MQTT v5.0 type table carried by the checker (15 codes, exported type names); each arm stores the unmasked first byte into the field that type's encoder emits first (the constructor's type-code field); the default yields Undefined; constructors carry the right code and reserved bits; Publish.Duplicate/QoS/Retain are evaluated as decision functions of that byte on all 256 values against bits 3, 2-1, 0; Undefined keeps a copy of the frame where Data() reads.",
+   technique="static analysis: switch/constant extraction against a specification table; exhaustive evaluation of extracted one-byte decision functions"),
+ "C17": dict(level="other", ref="§4 C17",
+   text="Publish.WellFormed, Subscribe.WellFormed and TopicFilter.WellFormed are treated as decision functions over the receiver's fields (identified through the exported accessors and the constructor's type code): every combination of abstract values of the atoms the rules mention (topic empty?, alias, all 256 first bytes, packet id, 0-3 filters, filter empty?, option bytes, subscription id absent/0/1/limit/limit+1) is pushed through the function's SSA decision tree and compared with the rule from the property text; String is shown to return through the suffixing helper on the same receiver, and the helper to return its argument unchanged iff WellFormed()==nil and else a constant format containing 'malformed!'.",
+   technique="static analysis: decision-tree extraction from go/ssa and propositional comparison over the atoms' finite abstract domain; CFG result-flow rule for String"),
  "C10": dict(level="other", ref="§4 C10",
    text="WriteTo's shape is read off the SSA form by value identity: one buffer made with the dry-run size fill(nil-slice,0) of the receiver, filled once by the same function from offset 0, exactly one Write of that very buffer on every path, the writer used for nothing else, results int64(n), err of that call; Undefined returns a non-nil error and never touches the writer. A ghost counter over the emissions of every fill-family function shows each emission to be made at entry offset + widths of all earlier emissions and the return to be that sum; primitives are shown to write contiguous pieces totalling what they return (extent rule, byte-per-iteration rule for the variable-byte-integer encoder); the returned width is the same on both sides of every buffer-size guard (dry run = real run); String prints the dry-run size. That the remaining-length value equals the bytes that follow is C02's.",
    technique="static analysis: SSA value-identity/result-flow rules, ghost-counter offset threading, linear-form equality of written extents"),
